@@ -17,10 +17,10 @@ COMMON_ASSUMPTIONS = ['models obey the well-posedness rules W1-W9 of DESIGN 2.7 
 
 
 def make(ID, oracles, mix, rule, nontrivial, classes=None, quick=(150, 4), thorough=(1200, 16), assumptions=(),
-         crash_is_violation=True, watchdog=False, trace_p=0.0):
+         crash_is_violation=True, watchdog=False, trace_p=0.0, noisy_p=0.0):
     def phases(tier):
         n, sh = quick if tier == 'quick' else thorough
-        return [Search('models', lambda: e3gen.specs(mix, trace_p), n, shards=sh)]
+        return [Search('models', lambda: e3gen.specs(mix, trace_p, noisy_p), n, shards=sh)]
 
     def on_repo_exception(case, e):
         if crash_is_violation:
